@@ -49,19 +49,24 @@ def _sparse_grid(a, b, d, lmin, lmax, boundary):
     return pts
 
 
-def _setup(S, d, lmin, lmax, boundary, box, f):
+def _setup(S, d, lmin, lmax, boundary, box, f, prior=None):
     SC, GO, G = _mods()
     a, b = BOXES[box](d)
     grid = G.TrapezoidalGrid(a=np.array(a), b=np.array(b), boundary=boundary)
     op = GO.Integration(f=f, grid=grid, dim=d)
     combi = SC.StandardCombi(np.array(a), np.array(b), operation=op, print_output=False)
+    if prior is not None:
+        # the same StandardCombi object was used before with other levels (solver-chosen among the given pairs)
+        l0, L0 = prior[S.choice('prior', len(prior))]
+        S.observe('prior', [l0, L0])
+        combi.perform_operation(l0, L0)
     scheme, err, result = combi.perform_operation(lmin, lmax)
     return a, b, grid, op, combi, scheme, result
 
 
-def nodal(S, d, lmin, lmax, boundary, box, out_len=1):
+def nodal(S, d, lmin, lmax, boundary, box, out_len=1, prior=None):
     f = lib.make_function(S, 'F', d, out_len)
-    a, b, grid, op, combi, scheme, result = _setup(S, d, lmin, lmax, boundary, box, f)
+    a, b, grid, op, combi, scheme, result = _setup(S, d, lmin, lmax, boundary, box, f, prior)
     # --- scheme / points
     sg = _sparse_grid(a, b, d, lmin, lmax, boundary)
     union = set()
@@ -326,4 +331,12 @@ def jobs(tier):
                                   {'d': d, 'lmin': lmin, 'lmax': lmax, 'boundary': boundary, 'box': box},
                                   validate=(5 if tier == 'quick' else 2)))
             n += 1
+    # the same StandardCombi object used twice: an earlier perform_operation with other levels must not leak into the second one
+    reuse = [(2, 1, 3, True, 'unit', 1), (2, 2, 3, False, 'shift', 2), (2, 2, 4, True, 'mixed', 1), (1, 2, 4, True, 'shift', 2), (3, 2, 3, True, 'unit', 1)]
+    if tier != 'quick':
+        reuse += [(2, 3, 4, False, 'unit', 1), (2, 1, 4, True, 'shift', 2), (3, 1, 3, False, 'mixed', 1)]
+    for (d, lmin, lmax, boundary, box, out_len) in reuse:
+        prior = [(l0, L0) for L0 in range(1, lmax + 2) for l0 in range(1, L0 + 1) if (l0, L0) != (lmin, lmax) and (d < 3 or L0 <= 3)]
+        js.append(Job('nodal-reuse[d=%d,lmin=%d,lmax=%d,%s,%s,out=%d]' % (d, lmin, lmax, 'b' if boundary else 'nb', box, out_len), nodal,
+                      {'d': d, 'lmin': lmin, 'lmax': lmax, 'boundary': boundary, 'box': box, 'out_len': out_len, 'prior': prior}, validate=3))
     return js
